@@ -713,7 +713,7 @@ class PathEnumerator:
             if it[0] == "ref" and it[1].startswith("typelib."):
                 # ... also when the display has been given a name at module level (`for name in _ERASED: ...`)
                 flat = flatten_display(self.prog, it)
-                if flat is not None and 1 <= len(flat) <= 6 and all(x[0] == "const" for x in flat):
+                if flat is not None and 1 <= len(flat) <= 6 and all(x[0] in ("const", "ref") for x in flat):
                     it = ("tuple", tuple(flat))
             if it[0] in ("tuple", "list") and 1 <= len(it[1]) <= 6 and not any(x[0] == "star" for x in it[1]):
                 # a loop over a short display written in place (a table of rows scanned in order) is unrolled exactly
